@@ -519,6 +519,12 @@ class NodePattern:
             if attr_value is None:
                 if not attr_pattern.can_match_none:
                     return match.fail(f"Attribute {name} not found in node.", node)
+            elif attr_value.is_ref():
+                # Inside a function: the value is only known at the call sites.
+                return match.fail(
+                    f"Attribute {name} refers to an attribute parameter: its value is not known.",
+                    node,
+                )
             elif not attr_pattern.matches(attr_value):
                 return match.fail(
                     f"Attribute {name} mismatch: expected {attr_pattern}, got {attr_value}.",
